@@ -126,7 +126,8 @@ STMTS = [
     ("select a,b from t", {"LT01"}), ("SELECT a from t", {"CP01"}), ("select a from t", set()), ("SELECT a,b from t", {"LT01", "CP01"}),
     ("select a from t where", {"PRS"}), ("select  a from t", {"LT01"}), ("select a from t WHERE x = 1", {"CP01"}),
 ]
-E2E_FORMS = FORMS + ["/* noqa */", "/* noqa: LT01 */", "/* noqa: disable=all */", "/* noqa: enable=all */", "-- noqa: AL0*", "-- noqa: disable=PRS", "-- noqa: core"]
+E2E_FORMS = FORMS + ["/* noqa */", "/* noqa: LT01 */", "/* noqa: disable=all */", "/* noqa: enable=all */", "-- noqa: AL0*", "-- noqa: disable=PRS", "-- noqa: core",
+                     "/* noqa: LT0* */", "/* noqa: disable=L* */", "/* noqa: CP0? */", "/*noqa:LT01*/", "/* noqa: capitalisation.* */", "/* noqa: enable=LT0* */", "-- noqa: disable=AL01", "-- noqa: disable=aliasing"]
 
 
 def gen_e2e(idx):
@@ -138,7 +139,7 @@ def gen_e2e(idx):
         f = r.choice(E2E_FORMS) if r.random() < 0.6 else ""
         lines.append(stmt + ";" + (" " + f if f else ""))
         forms.append(f)
-    mode = r.choice(["on", "on", "on", "off"])
+    mode = r.choice(["on", "on", "on", "off", "subset:CP01", "subset:LT01"])
     return "\n".join(lines) + "\n", forms, mode
 
 
@@ -150,6 +151,9 @@ def run_e2e(case):
     c = ctx()
     source, forms, mode = gen_e2e(case["idx"])
     rules = "LT01,CP01,AL01,LT02"
+    if mode.startswith("subset:"):
+        # only one rule enabled: directives naming OTHER (unselected) rules must hide nothing of it
+        rules = mode.split(":", 1)[1]
     truth_l = sf.make_linter("ansi", rules=rules, core={"disable_noqa": True})
     on_l = sf.make_linter("ansi", rules=rules)
     try:
